@@ -90,6 +90,27 @@ def build_udp(rng, payload: bytes, src_ip=None, dst_ip=None, v6=True, dport=None
     hdr = struct.pack('!HHHH', sport, dport, ln & 0xffff, ck)
     return hdr, cut(UDP, bits_of(hdr))
 
+def build_double_carry_udp(rng, v6=True):
+    """an IP/UDP packet (no upper layer) whose UDP checksum sum S — all 16-bit words of pseudo header, UDP header and data —
+    needs a second fold: (S & 0xffff) + (S >> 16) >= 0x10000. Returns (bytes, expected fields, payload bytes)."""
+    while True:
+        pl = bytearray([0xff, rng.randrange(0xf0, 0x100)] * rng.randrange(4, 24) + [rng.randrange(256) for _ in range(rng.choice([0, 1]))])
+        sport, dport = rng.randrange(65536), rng.choice([1000, 2000, 40000])
+        if v6: ih, ie, src, dst = build_ipv6(rng, bytes(8) + pl, 17, True)
+        else: ih, ie, src, dst = build_ipv4(rng, bytes(8) + pl, 17, True)
+        pl[0:2] = b'\x00\x00'
+        udp0 = struct.pack('!HHHH', sport, dport, 8 + len(pl), 0) + bytes(pl)
+        ph = (src + dst + struct.pack('!I', len(udp0)) + b'\x00\x00\x00\x11') if v6 else (src + dst + b'\x00\x11' + struct.pack('!H', len(udp0)))
+        words = ph + udp0 + (b'\x00' if len(udp0) % 2 else b'')
+        S0 = sum(struct.unpack('!%dH' % (len(words) // 2), words))
+        base = (0xffff - (S0 & 0xffff)) & 0xffff
+        for w in [(base - k) & 0xffff for k in range(0, 64)]:
+            T = S0 + w
+            if (T & 0xffff) + (T >> 16) >= 0x10000:
+                pl[0:2] = struct.pack('!H', w)
+                uh, ue = build_udp(rng, bytes(pl), src, dst, v6=v6, dport=dport, correct=True, sport=sport)
+                return ih + uh + bytes(pl), ie + ue, bytes(pl)
+
 # ------------------------------------------------------------------ CoAP (RFC 7252 §3, §3.1)
 
 def coap_ext(v):
